@@ -1527,6 +1527,8 @@ class SelfObj:
             return self.attrs[name]
         if name == "__dict__":
             return self.attrs  # the instance dictionary is the table of bindings
+        if self.cls is None:
+            raise Unmodelled("attribute %s of a class-less probe object (bound: %s)" % (name, sorted(self.attrs)))
         m = self.cls.lookup(name)
         if m is not None:
             if m.is_property():
